@@ -466,6 +466,12 @@ def eval_count(v, s0, vec_before=0):
         if a is None or b is None:
             return None
         return a + b if v[1] == 'Add' else a - b
+    if v[0] == 'call' and v[2] in ('core::num::saturating_add', 'core::num::wrapping_add', 'core::num::saturating_sub') and len(v[3]) == 2:
+        a = eval_count(v[3][0], s0)
+        b = eval_count(v[3][1], s0)
+        if a is None or b is None:
+            return None
+        return a + b if v[2].endswith('_add') else max(a - b, 0)   # small abstract numbers: nothing saturates upwards
     if v[0] == 'call' and v[2] == 'std::collections::VecDeque::len' and v[3]:
         f = ci_field_ref(v[3][0])
         if f == 'queue':
